@@ -1,5 +1,260 @@
-"""K5 derivative-companion coverage (placeholder until the engine lands)."""
+"""K5 derivative-companion coverage (chain-rule structure).
+
+For a primal F and a stated derivative F_x of the same class:
+  atoms_x(F)  = callables `self.a(...)` evaluated by F with an x-dependent argument
+  for every atom a with an existing, not identically zero companion a_x:  F_x must reference a_x
+Accepted idioms for F_x: companions present; delegation (`return self.W(t, q).T`); numerical differentiation through
+approx_fprime; `raise NotImplementedError`.
+
+Why necessary: if F depends on a(x) and da/dx != 0, the true derivative contains dF/da * a_x; a routine that never
+evaluates a_x (nor differentiates numerically) cannot equal it for all states.  Not decided: coefficients, signs.
+"""
+from __future__ import annotations
+
+import ast
+import re
+
+from .core import dotted, norm_src, is_raise_notimpl
+from .protocol import ClassView, walk_own
+
+# ---- companion name tables (frozen after reading the code; regex -> candidate names) ------------------
+Q_SUFFIXES = ["_q", "_q1", "_q2", "_q1_q2", "_qe"]
+U_SUFFIXES = ["_u", "_u1", "_u2", "_ue"]
+
+U_ALIAS = [
+    # velocity-like quantity -> Jacobian w.r.t. u   (reason: naming convention v = J u + ...)
+    (r"^v_P$", ["J_P"]), (r"^v_J([12])$", [r"J_J\1"]), (r"^v_C([12])$", [r"J_C\1"]),
+    (r"^Omega$", ["J_R"]), (r"^B_Omega$", ["B_J_R"]), (r"^Omega([12])$", [r"J_R\1", r"J\1_R"]),
+    (r"^q_dot$", ["q_dot_u"]), (r"^g_dot$", ["W_g", "g_dot_u"]), (r"^g_N_dot$", ["g_N_dot_u", "W_N"]),
+    (r"^gamma_F$", ["gamma_F_u", "W_F"]), (r"^gamma$", ["gamma_u", "W_gamma"]), (r"^l_dot$", ["l_dot_u", "W_l"]),
+    (r"^v_P1P2$", []),
+]
+T_ALIAS = [
+    # quantity -> its time derivative (or, failing that, the q-derivative used through q_dot)
+    (r"^r_OP$", ["v_P"]), (r"^v_P$", ["a_P"]), (r"^r_OJ([12])$", [r"v_J\1"]), (r"^v_J([12])$", [r"a_J\1"]),
+    (r"^r_OC([12])$", [r"v_C\1"]), (r"^v_C([12])$", [r"a_C\1"]), (r"^r_OQ$", ["v_Q"]), (r"^v_Q$", ["a_Q"]),
+    (r"^A_IB$", ["B_Omega", "Omega"]), (r"^A_IB([12])$", [r"Omega\1"]), (r"^A_IJ([12])$", [r"Omega\1"]),
+    (r"^Omega$", ["Psi"]), (r"^B_Omega$", ["B_Psi"]), (r"^Omega([12])$", [r"Psi\1"]),
+    (r"^Omega_F_tilde$", ["Psi_F_tilde"]), (r"^n$", ["n_dot", "n_q1_q2"]), (r"^n_dot$", ["n_ddot"]),
+    (r"^t1t2$", ["t1t2_dot", "t1t2_q1_q2"]), (r"^t1t2_dot$", ["t1t2_ddot"]),
+    (r"^l$", ["l_dot"]), (r"^_n$", ["_n_q", "v_P1", "v_P2"]),
+    (r"^r_OP__$", ["r_OP_t__"]), (r"^r_OP_t__$", ["r_OP_tt__"]), (r"^A_IB__$", ["A_IB_t__"]), (r"^A_IB_t__$", ["A_IB_tt__"]),
+    (r"^J_P$", ["J_P_q", "kappa_P"]), (r"^J_J([12])$", [r"J_J\1_q\1", r"a_J\1"]), (r"^J_R([12])$", [r"J_R\1_q\1", r"Psi\1"]),
+]
+
+
+def _alias(table, name):
+    out = []
+    for pat, cands in table:
+        m = re.match(pat, name)
+        if m:
+            out += [m.expand(c) for c in cands]
+    return out
+
+
+class K5:
+    def __init__(self, ctx, ci, variant=None):
+        self.ctx = ctx
+        self.view = ClassView(ctx, ci, variant)
+        self.ci = ci
+
+    # ---------------------------------------------------------------
+    def callable_kind(self, name):
+        k = self.view.kind(name)
+        return k if k in ("method", "lambda", "alias") else None
+
+    def is_zero(self, name):
+        """companion provably returns zeros (every definition)."""
+        bodies = self.view.bodies(name)
+        if not bodies:
+            return False
+        for (c, b, kind, sn) in bodies:
+            if kind == "lambda":
+                e = b.body
+            else:
+                st = [s for s in b.body if not (isinstance(s, ast.Expr) and isinstance(s.value, ast.Constant))]
+                if len(st) != 1 or not isinstance(st[0], ast.Return) or st[0].value is None:
+                    return False
+                e = st[0].value
+            if not (isinstance(e, ast.Call) and (dotted(e.func) or "") in ("np.zeros", "zeros", "np.zeros_like")):
+                return False
+        return True
+
+    def tainted_names(self, body, seeds):
+        """locals (transitively) assigned from expressions mentioning a seed name."""
+        t = set(seeds)
+        changed = True
+        while changed:
+            changed = False
+            for n in walk_own(body):
+                if isinstance(n, ast.Assign):
+                    if {x.id for x in ast.walk(n.value) if isinstance(x, ast.Name)} & t:
+                        for tg in n.targets:
+                            for e in ast.walk(tg):
+                                if isinstance(e, ast.Name) and e.id not in t:
+                                    t.add(e.id)
+                                    changed = True
+        return t
+
+    def atoms(self, name, dep, depth=0):
+        """callable self-attributes evaluated by `name` with a dep-dependent argument (helpers without companions are inlined)."""
+        out = {}
+        for (c, b, kind, sn) in self.view.bodies(name):
+            params = [a.arg for a in (b.args.args if hasattr(b, "args") else [])]
+            if dep == "t":
+                seeds = set(params) - {sn}
+            else:
+                seeds = {p for p in params if p == dep or p == dep + "e" or p.startswith(dep + "_") and p in (dep + "_pre", dep + "_post")}
+                if not seeds:
+                    continue
+            tn = self.tainted_names(b, seeds)
+            for n in walk_own(b):
+                if isinstance(n, ast.Call) and isinstance(n.func, ast.Attribute) and isinstance(n.func.value, ast.Name) and n.func.value.id == sn:
+                    a = n.func.attr
+                    if self.callable_kind(a) is None:
+                        continue
+                    argnames = {x.id for arg in list(n.args) + [k.value for k in n.keywords] for x in ast.walk(arg) if isinstance(x, ast.Name)}
+                    if dep == "t" or (argnames & tn):
+                        out.setdefault(a, n)
+        # helpers without any companion are inlined (e.g. W_N -> g_N_dot_u, private _compute helpers)
+        if depth < 2:
+            for a in list(out):
+                ex, nz = self.companions(a, dep)
+                if not ex and self.view.bodies(a) and a != name:
+                    for a2, n2 in self.atoms(a, dep, depth + 1).items():
+                        out.setdefault(a2, n2)
+        return out
+
+    def companions(self, a, dep):
+        if dep == "q":
+            cands = [a + s for s in Q_SUFFIXES]
+        elif dep == "u":
+            cands = [a + s for s in U_SUFFIXES] + _alias(U_ALIAS, a)
+        else:
+            cands = [a + "_dot", a + "_t"] + _alias(T_ALIAS, a)
+        ex = [c for c in cands if self.callable_kind(c) is not None]
+        nz = [c for c in ex if not self.is_zero(c)]
+        return ex, nz
+
+    def refs(self, name, depth=0, seen=None):
+        """self attributes referenced by `name` (following delegations / private helpers one level)."""
+        seen = seen if seen is not None else set()
+        out = set()
+        if name in seen or depth > 2:
+            return out
+        seen.add(name)
+        for (c, b, kind, sn) in self.view.bodies(name):
+            for n in walk_own(b):
+                if isinstance(n, ast.Attribute) and isinstance(n.value, ast.Name) and n.value.id == sn and isinstance(n.ctx, ast.Load):
+                    out.add(n.attr)
+        for a in list(out):
+            if self.callable_kind(a) in ("method",) and depth < 1:
+                out |= self.refs(a, depth + 1, seen)
+        # alias stores: self.gamma_F = self.__gamma_F
+        for (c2, s) in self.view.stores(name):
+            if s.kind == "alias" and isinstance(s.value.value, ast.Name):
+                out |= self.refs(s.value.attr, depth, seen)
+        return out
+
+    def idiom(self, name):
+        """'numeric' / 'notimpl' / None."""
+        res = None
+        for (c, b, kind, sn) in self.view.bodies(name):
+            if kind == "method" and is_raise_notimpl(b):
+                return "notimpl"
+            for n in ast.walk(b):
+                if isinstance(n, ast.Call) and (dotted(n.func) or "").split(".")[-1] == "approx_fprime":
+                    res = "numeric"
+        for (c2, s) in self.view.stores(name):
+            if s.kind == "alias" and isinstance(s.value.value, ast.Name):
+                r = self.idiom(s.value.attr)
+                if r:
+                    return r
+        return res
+
+    def resolve_alias(self, name):
+        for (c2, s) in self.view.stores(name):
+            if s.kind == "alias" and isinstance(s.value.value, ast.Name) and not self.view.bodies(name):
+                return s.value.attr
+        return name
+
+    # ---------------------------------------------------------------
+    def check_pair(self, rep, rule, primal, deriv, dep, file_rel):
+        primal_r, deriv_r = self.resolve_alias(primal), self.resolve_alias(deriv)
+        if not self.view.bodies(primal_r) or not self.view.bodies(deriv_r):
+            return
+        C = f"{self.ci.rel}:{self.ci.qual}.{deriv}"
+        idi = self.idiom(deriv_r)
+        label = {"q": "d/dq", "u": "d/du", "t": "d/dt"}[dep]
+        if idi:
+            rep.ok(rule, C, f"{label} {primal}: accepted idiom ({'numerical differentiation' if idi == 'numeric' else 'declared unimplemented'})", trivial=True)
+            return
+        atoms = self.atoms(primal_r, dep)
+        refs = self.refs(deriv_r)
+        missing = []
+        n_obl = 0
+        for a, call in sorted(atoms.items()):
+            ex, nz = self.companions(a, dep)
+            if not nz:
+                continue
+            n_obl += 1
+            if not (set(ex) & refs):
+                missing.append((a, nz, call))
+        if missing:
+            for a, nz, call in missing:
+                line = self.view.bodies(deriv_r)[0][1].lineno
+                rep.bad(rule, C, f"{label} of {primal}: term through {a}",
+                        f"`{primal}` evaluates `{a}(...)`, whose {label} companion {nz} is not identically zero, but `{deriv}` never "
+                        f"references it: the chain-rule term d{primal}/d{a} * {nz[0]} is missing", f"{self.ci.rel}:{line}")
+        else:
+            rep.ok(rule, C, f"{label} {primal}: {n_obl} chain-rule companions all referenced ({', '.join(sorted(atoms))[:80]})", trivial=n_obl == 0)
+
+
+TIME_CHAINS = [("g", "g_dot"), ("g_dot", "g_ddot"), ("g_N", "g_N_dot"), ("g_N_dot", "g_N_ddot"), ("gamma_F", "gamma_F_dot"),
+               ("gamma", "gamma_dot"), ("l", "l_dot"), ("r_OP", "v_P"), ("v_P", "a_P")]
+W_PAIRS = [("W_g", "Wla_g_q"), ("W_gamma", "Wla_gamma_q"), ("W_c", "Wla_c_q"), ("W_N", "Wla_N_q"), ("W_F", "Wla_F_q"),
+           ("W_tau", "Wla_tau_q"), ("W_l", "W_l_q")]
+
+
+def pairs_of(k5: K5):
+    """(primal, derivative, dep) pairs of a class by naming convention."""
+    names = set()
+    for c in k5.view.mro:
+        names |= set(c.methods) | {a for a, sts in c.stores.items() if all(s.kind in ("lambda", "alias") for s in sts)}
+    out = []
+    for n in sorted(names):
+        for suf, dep in (("_q", "q"), ("_qe", "q"), ("_u", "u"), ("_ue", "u")):
+            if n.endswith(suf) and n[: -len(suf)] in names and not n.startswith("Wla_"):
+                out.append((n[: -len(suf)], n, dep))
+    for p, d in W_PAIRS:
+        if p in names and d in names:
+            out.append((p, d, "q"))
+    for p, d in TIME_CHAINS:
+        if p in names and d in names:
+            out.append((p, d, "t"))
+    # u-derivatives with alias names
+    for p, d in (("g_dot", "W_g"), ("g_N_dot", "g_N_dot_u"), ("gamma_F", "gamma_F_u"), ("gamma", "gamma_u"), ("l_dot", "W_l")):
+        if p in names and d in names and (p, d, "u") not in out:
+            out.append((p, d, "u"))
+    return out
+
+
+def run_class(ctx, rule, ci, variant=None, only=None):
+    k5 = K5(ctx, ci, variant)
+    n = 0
+    for (p, d, dep) in pairs_of(k5):
+        if only is not None and not only(p, d, dep):
+            continue
+        k5.check_pair(ctx.rep, rule, p, d, dep, ci.rel)
+        n += 1
+    return n
 
 
 def run_c06(ctx):
-    return
+    rep = ctx.rep
+    rep.rule("C06.R5", "chain-rule coverage of contact derivatives and time chains (K5)", 20)
+    n = 0
+    for ci in ctx.model.all_classes():
+        if ci.rel.startswith("cardillo/contacts/") and "g_N" in ci.methods:
+            n += run_class(ctx, "C06.R5", ci)
+    return n
